@@ -101,7 +101,14 @@ class Canonicalizer:
                 return numerator
             if numerator == denominator:
                 return One()
-            return numerator / denominator  # TODO
+            quotient = numerator / denominator  # TODO
+            # dividing by a fraction multiplies out, so the same two shortcuts apply to what the division built
+            if isinstance(quotient, Fraction):
+                if isinstance(quotient.denominator, One):
+                    return quotient.numerator
+                if quotient.numerator == quotient.denominator:
+                    return One()
+            return quotient
         elif isinstance(expression, One | Zero):
             return expression
         else:
